@@ -252,3 +252,11 @@ func KindOf(k string) eventlogger.NodeType {
 		return eventlogger.NodeType(0)
 	}
 }
+
+// NewBroker creates a Broker the way an application with a shared option list does: the options (which restate the
+// defaults) come from a slice with spare capacity. Options given to one call are that call's alone.
+func NewBroker() (*eventlogger.Broker, error) {
+	opts := make([]eventlogger.Option, 0, 8)
+	opts = append(opts, eventlogger.WithNodeRegistrationPolicy(eventlogger.AllowOverwrite), eventlogger.WithPipelineRegistrationPolicy(eventlogger.AllowOverwrite))
+	return eventlogger.NewBroker(opts...)
+}
